@@ -139,7 +139,7 @@ def run_case(case):
             opts.pop(k, None)
         opts["rng_key"] = jax.random.key(int(g.integers(2**31)))
         opts["rng"] = np.random.default_rng(int(g.integers(2**31)))
-        opts["sampler_kwargs"] = {"algorithm": "rwmh", "n_steps": 1, "sigma": 0.3}
+        opts["sampler_kwargs"] = [{"algorithm": "rwmh", "n_steps": 1, "sigma": 0.3}, {"algorithm": "nuts", "n_steps": 1, "step_size": 0.3}, {"algorithm": "hmc", "n_steps": 1, "step_size": 0.3}][int(g.integers(3))]
         if "n_steps" in opts:
             opts["n_steps"] = min(opts["n_steps"], 8)
     rec = smcrun.Recorder(abort_on_stall=True, keep_vectors=False)
